@@ -11,6 +11,8 @@
 //     does not enter function arguments, b**(1+z) vs b*b**z) is decided by value at 6 generic
 //     complex points with an own evaluator (harness/c36_eval.h, relative 1e-9).
 #include "common.h"
+#include <algorithm>
+#include <set>
 #include "sexp.h"
 #include "exprgen.h"
 #include "c36_eval.h"
@@ -46,6 +48,25 @@ std::string hx_run(const std::string &line, std::string &oracle)
     if (red.size() != exprs.size()) {
         oracle = "FAIL:length:" + tostr(red.size());
         return out;
+    }
+    // no function symbol may appear in the answer that is not in the inputs (the internal
+    // unevaluated add / mul / pow markers of opt_cse must not leak)
+    {
+        std::set<std::string> innames;
+        for (auto &e : exprs)
+            for (auto &f : function_symbols(*e))
+                innames.insert(down_cast<const FunctionSymbol &>(*f).get_name());
+        vec_basic outs(red.begin(), red.end());
+        for (auto &p : reps)
+            outs.push_back(p.second);
+        for (auto &e : outs)
+            for (auto &f : function_symbols(*e)) {
+                const std::string &n = down_cast<const FunctionSymbol &>(*f).get_name();
+                if (!innames.count(n)) {
+                    oracle = "FAIL:marker-leak:" + n + " in " + e->__str__();
+                    return out;
+                }
+            }
     }
     // every Symbol that occurs anywhere in the inputs, also as the variable of a Derivative or as a
     // variable / in a point of a Subs (free_symbols would leave bound variables out)
@@ -444,6 +465,46 @@ vec_basic common_args(G &g, bool is_mul)
 }
 } // namespace
 
+// user functions whose names look like the per-call marker names of cse (`_cse_add`, ...): the marker
+// prefix must be grown until no user function starts with it (one pass is not enough when one name
+// forces `_cse__` and another one is `_cse__add`)
+vec_basic marker_names_case(Rng &rng, G &g)
+{
+    static const char *pool[] = {"_cse_add", "_cse_mul", "_cse_pow", "_cse__add", "_cse__mul",
+                                 "_cse__pow", "_cse___add", "_cse_x", "_cse_"};
+    std::vector<std::string> names;
+    int want = 2 + (int)rng.below(2);
+    while ((int)names.size() < want) {
+        std::string n = pool[rng.below(9)];
+        if (std::find(names.begin(), names.end(), n) == names.end())
+            names.push_back(n);
+    }
+    RCP<const Basic> a = vgen::sym(0), b = vgen::sym(1), c = vgen::sym(2), d = vgen::sym(3);
+    if (rng.coin(1, 3))
+        a = g.fresh(1);
+    if (is_a_Number(*a))
+        a = vgen::sym(4);
+    RCP<const Basic> s1 = add({a, b, c}), s2 = add({a, b, d}), p1 = mul({a, b, c}), p2 = mul({a, b, d});
+    RCP<const Basic> q = pow(add(a, b), integer(-2));
+    vec_basic v;
+    v.push_back(function_symbol(names[0], {s1, p1}));
+    v.push_back(function_symbol(names[1], {s2, p2}));
+    if (names.size() > 2)
+        v.push_back(add(s1, function_symbol(names[2], {q, mul(a, b)})));
+    switch (rng.below(3)) {
+        case 0:
+            v.push_back(mul(s2, p2));
+            break;
+        case 1:
+            v.push_back(add(function_symbol(names[0], {neg(mul(a, b)), q}), p1));
+            break;
+        default:
+            v.push_back(sin(add(a, b)));
+            break;
+    }
+    return v;
+}
+
 void hx_gen(Rng &rng, const std::string &tier)
 {
     bool thorough = tier == "thorough";
@@ -482,6 +543,20 @@ void hx_gen(Rng &rng, const std::string &tier)
             emit(opline({mul(make_rcp<const Subs>(function_symbol("f", x1)->diff(x1), pt), z), pow(add(x, y), integer(2)),
                          sin(mul(z, add(x, y)))}),
                  "binders");
+        }
+        // user functions named like the per-call marker names (one forces the prefix to grow, the other
+        // one equals the grown marker name)
+        {
+            RCP<const Basic> w = symbol("w");
+            RCP<const Basic> s1 = add({x, y, z}), s2 = add({x, y, w}), p1 = mul({x, y, z}), p2 = mul({x, y, w});
+            emit(opline({function_symbol("_cse_x", {s1, p1}), function_symbol("_cse__add", {s2, p2}), mul(s1, p2)}),
+                 "markerfn");
+            emit(opline({function_symbol("_cse_add", {s1, p1}), function_symbol("_cse__mul", {s2, p2}),
+                         function_symbol("_cse__pow", {pow(add(x, y), integer(-2)), mul(x, y)})}),
+                 "markerfn");
+            emit(opline({function_symbol("_cse_", {s1, s2}), function_symbol("_cse__add", {p1, p2}),
+                         function_symbol("_cse___add", {s1, p2}), add(s2, p1)}),
+                 "markerfn");
         }
         // user functions named like the internal markers of opt_cse (known finding)
         emit(opline({function_symbol("add", {x, y})}), "userfn");
@@ -525,7 +600,7 @@ void hx_gen(Rng &rng, const std::string &tier)
                 v.push_back(add(u));
                 v.push_back(mul(a, symbol("x" + std::to_string(rng.below(4)))));
                 v.push_back(sin(a));
-            } else if (fam < 97) {
+            } else if (fam < 96) {
                 // the names x0, x1, ... occur ONLY inside Derivative / Subs nodes (as the variable, in the
                 // differentiated expression, in the substitution point) and inside function arguments; the
                 // repeated subexpressions elsewhere force cse to invent symbols, which must skip these names
@@ -562,6 +637,9 @@ void hx_gen(Rng &rng, const std::string &tier)
                         v.push_back(mul(shared1, integer(3)));
                         break;
                 }
+            } else if (fam < 98) {
+                tag = "markerfn";
+                v = marker_names_case(rng, g);
             } else {
                 tag = "userfn";
                 const char *names[] = {"add", "mul", "pow"};
